@@ -10,10 +10,11 @@ strconv's shortest-digit generation and ParseFloat's correct rounding are parame
 import JsonV.Lemmas.NumInt
 import JsonV.Lemmas.NumGrammar
 import JsonV.Lemmas.NumDenote
+import JsonV.Lemmas.NumTok
 
 namespace JsonV.Props.C10
 open JsonV JsonV.Model.Number JsonV.Spec.Ecma
-open JsonV.Lemmas.NumParse JsonV.Lemmas.NumInt JsonV.Lemmas.NumFloat JsonV.Lemmas.NumGrammar
+open JsonV.Lemmas.NumParse JsonV.Lemmas.NumInt JsonV.Lemmas.NumFloat JsonV.Lemmas.NumGrammar JsonV.Lemmas.NumTok
 
 /-! ### Tie A: constants regenerated from the Go source -/
 
@@ -182,6 +183,80 @@ theorem token_agrees_with_unmarshal (pf : Bytes → Fl) (buf : Bytes) (i : Int)
 
 example : unmarshalInt 64 [45, 55] = .ok (-7) :=
   (int_bounds 64 (Or.inr (Or.inr (Or.inr rfl))) _ _).2 ⟨by decide, by decide, by decide, by decide⟩
+
+/-! ### typed tokens: jsontext.Int / jsontext.Uint / jsontext.Float and the accessors on them -/
+
+/-- On a raw token the general accessors are the raw ones (so `tokenInt_class`/`tokenUint_class` apply). -/
+theorem tok_raw (pf : Bytes → Fl) (buf : Bytes) :
+    tokInt pf (.raw buf) = tokenInt pf buf ∧ tokUint pf (.raw buf) = tokenUint pf buf := ⟨rfl, rfl⟩
+
+/-- jsontext.Int(n): `.Int()` is exact for every int64 (0 included, which is the raw token `0`);
+`.Uint()` is exact for n ≥ 0 and `(0, syntax)` for n < 0. -/
+theorem typedInt_class (pf : Bytes → Fl) (n : Int) (h1 : -(2 ^ 63 : Int) ≤ n) (h2 : n < 2 ^ 63) :
+    tokInt pf (mkInt n) = (n, .none) ∧
+    tokUint pf (mkInt n) = if n < 0 then (0, .syntax) else (n.toNat, .none) :=
+  ⟨mkInt_tokInt pf n h1 h2, mkInt_tokUint pf n h1 h2⟩
+
+/-- jsontext.Uint(u): `.Uint()` is exact for every uint64; `.Int()` is exact up to and INCLUDING 2^63−1 and
+saturates with a range error only above it. -/
+theorem typedUint_class (pf : Bytes → Fl) (u : Nat) (h : u < 2 ^ 64) :
+    tokUint pf (mkUint u) = (u, .none) ∧
+    tokInt pf (mkUint u) = if u < 2 ^ 63 then ((u : Int), .none) else (2 ^ 63 - 1, .range) :=
+  ⟨mkUint_tokUint pf u h, mkUint_tokInt pf u h⟩
+
+example (pf : Bytes → Fl) : tokInt pf (mkUint 9223372036854775807) = (9223372036854775807, .none) := by
+  have := (typedUint_class pf 9223372036854775807 (by decide)).2
+  rw [if_pos (by decide)] at this; exact this
+
+/-- A typed integer token behaves exactly like the raw token of its rendered literal (strconv.AppendInt/AppendUint). -/
+theorem typed_eq_raw (pf : Bytes → Fl) :
+    (∀ n : Int, -(2 ^ 63 : Int) ≤ n → n < 2 ^ 63 → tokInt pf (mkInt n) = tokenInt pf (formatInt n)) ∧
+    (∀ u : Nat, u < 2 ^ 64 → tokInt pf (mkUint u) = tokenInt pf (formatUint u) ∧
+                              tokUint pf (mkUint u) = tokenUint pf (formatUint u)) := by
+  constructor
+  · intro n h1 h2
+    rw [mkInt_tokInt pf n h1 h2, tokenInt_class, (formatInt_lit n).1, (formatInt_lit n).2]
+    simp only [if_true]
+    rw [if_pos ⟨h1, h2⟩]
+  · intro u h
+    obtain ⟨hl, hv⟩ := isIntLit_of_canonical _ (formatUint_canonical u)
+    constructor
+    · rw [mkUint_tokInt pf u h, tokenInt_class, hl, hv, bytesVal_formatUint]
+      simp only [if_true]
+      by_cases hu : u < 2 ^ 63
+      · rw [if_pos hu, if_pos ⟨by omega, by omega⟩]
+      · rw [if_neg hu, if_neg (by omega), if_neg (by omega)]
+    · rw [mkUint_tokUint pf u h, tokenUint_class, formatUint_canonical, bytesVal_formatUint]
+      simp [h]
+
+/-- jsontext.Float / Float32 token → Token.Int, for every finite value (`truncInt f` is the value truncated toward
+zero): fractional ⇒ syntax error carrying the truncated, saturated value; integral and inside the int64 range ⇒
+exact, no error; integral and outside — including exactly 2^63 — ⇒ saturated with a range error. -/
+theorem typedFloat_int_class (pf : Bytes → Fl) (f : Fl) (b : Bool) (hf : f.inf = false) :
+    tokInt pf (.float f b) =
+      if f.isIntegral = false then (f64toi64 f, .syntax)
+      else if -(2 ^ 63 : Int) ≤ truncInt f ∧ truncInt f < 2 ^ 63 then (truncInt f, .none)
+      else if truncInt f < 0 then (-(2 ^ 63), .range) else (2 ^ 63 - 1, .range) := tokInt_float pf f b hf
+
+/-- … → Token.Uint: fractional or carrying a minus sign (also −0) ⇒ syntax error; integral in [0, 2^64) ⇒ exact;
+integral and ≥ 2^64 — including exactly 2^64 — ⇒ MaxUint64 with a range error. -/
+theorem typedFloat_uint_class (pf : Bytes → Fl) (f : Fl) (b : Bool) (hf : f.inf = false) :
+    tokUint pf (.float f b) =
+      if f.isIntegral = false ∨ f.neg = true then (f64tou64 f, .syntax)
+      else if f.truncAbs < 2 ^ 64 then (f.truncAbs, .none) else (2 ^ 64 - 1, .range) := tokUint_float pf f b hf
+
+/-- The value reported with a syntax error (token.go f64toi64 / f64tou64) is the truncation toward zero, saturated. -/
+theorem truncation_saturates (f : Fl) (hf : f.inf = false) :
+    f64toi64 f = (if truncInt f < -(2 ^ 63) then -(2 ^ 63) else if truncInt f ≥ 2 ^ 63 then 2 ^ 63 - 1 else truncInt f) ∧
+    f64tou64 f = (if f.neg then 0 else if f.truncAbs ≥ 2 ^ 64 then 2 ^ 64 - 1 else f.truncAbs) :=
+  ⟨f64toi64_clamp f hf, f64tou64_clamp f hf⟩
+
+-- 2^63 as a float token: integral, out of range ⇒ (MaxInt64, range); as Uint it is exact
+example (pf : Bytes → Fl) : tokInt pf (.float ⟨false, false, 2 ^ 52, 11⟩ false) = (2 ^ 63 - 1, .range) ∧
+    tokUint pf (.float ⟨false, false, 2 ^ 52, 11⟩ false) = (2 ^ 63, .none) := by
+  constructor
+  · rw [typedFloat_int_class pf _ _ rfl, if_neg (by decide), if_neg (by decide), if_neg (by decide)]
+  · rw [typedFloat_uint_class pf _ _ rfl, if_neg (by decide), if_pos (by decide)]; rfl
 
 /-! ### floats: layout of the shortest decomposition -/
 
